@@ -57,7 +57,10 @@ def run_any(spec):
         inj = yieldinj.Injector(p=ycfg.get('p', 0.0), seed=spec.get('seed', 0), windows=wins,
                                 files=ycfg.get('files') or (['__init__.py'] if fe == 'legacy' else ['processpool.py'])).install()
     try:
-        obs = frontends.run_legacy(spec) if fe == 'legacy' else frontends.run_procpool(spec)
+        if fe == 'procpool_full':
+            obs = frontends.run_procpool_full(spec)  # the real ProcessPoolDownloader object over in-process workers
+        else:
+            obs = frontends.run_legacy(spec) if fe == 'legacy' else frontends.run_procpool(spec)
     finally:
         if inj is not None:
             inj.uninstall()
